@@ -23,6 +23,114 @@ func runC09(c *Check, tier string) {
 	ruleR02c(c, "R09d")
 	// "only if": every component the statement lists is part of the key
 	ruleR01a(c, "R09e")
+	ruleR09f(c, "R09f")
+}
+
+// R09f: every listed input file contributes its content — the loop that streams the input files into the
+// hasher skips an entry only when the file does not exist.
+func ruleR09f(c *Check, rule string) {
+	c.Rule(rule, "in the loop that copies the input files into the key hasher an iteration reaches the next one without copying only on the os.IsNotExist branch (a missing file); any other kind of entry is either hashed or fails the key computation", 1)
+	sinks := hasherSinks(c)
+	copyIn := map[*ssa.Function][]ssa.Instruction{}
+	for _, s := range sinks {
+		if strings.HasPrefix(s.How, "io.Copy") && engine.InPackage(s.Call.Parent(), "hashing") {
+			copyIn[s.Call.Parent()] = append(copyIn[s.Call.Parent()], s.Call)
+		}
+	}
+	// a copy into a writer parameter that receives the hasher at a call site (a per-file helper)
+	for _, cp := range c.G.CallsTo("io.Copy", "io.CopyBuffer") {
+		fn := cp.Parent()
+		if !engine.InPackage(fn, "hashing") || len(cp.Common().Args) < 2 {
+			continue
+		}
+		for _, o := range engine.Origins(cp.Common().Args[0]) {
+			prm, ok := o.(*ssa.Parameter)
+			if !ok {
+				continue
+			}
+			for _, cs := range c.G.CallersOf(fn) {
+				for k, fp := range fn.Params {
+					if fp == prm && k < len(cs.Common().Args) && isHasherValue(c, cs.Common().Args[k]) {
+						dup := false
+						for _, x := range copyIn[fn] {
+							if x == ssa.Instruction(cp) {
+								dup = true
+							}
+						}
+						if !dup {
+							copyIn[fn] = append(copyIn[fn], cp)
+						}
+					}
+				}
+			}
+		}
+	}
+	notExist := engine.CutEdgesWhere(func(a engine.Atom) bool {
+		if a.Op != "true" {
+			return false
+		}
+		call, _ := engine.CallOf(a.V)
+		if call == nil {
+			return false
+		}
+		n := engine.CalleeName(call)
+		if n == "os.IsNotExist" {
+			return true
+		}
+		if n == "errors.Is" && len(call.Common().Args) == 2 {
+			return strings.Contains(call.Common().Args[1].String(), "ErrNotExist") || strings.Contains(fmt.Sprint(engine.Origins(call.Common().Args[1])), "ErrNotExist")
+		}
+		return false
+	})
+	isIn := func(list []ssa.Instruction) func(ssa.Instruction) bool {
+		return func(in ssa.Instruction) bool {
+			for _, x := range list {
+				if x == in {
+					return true
+				}
+			}
+			return false
+		}
+	}
+	// helpers that copy one file: every path to a nil return copies, or took the not-exist branch
+	alwaysCopies := map[*ssa.Function]bool{}
+	for h, list := range copyIn {
+		if skip, _ := engine.PathExists(h, nil, successReturn, engine.PathQuery{CutInstr: isIn(list), CutEdge: notExist, Shallow: true}); !skip {
+			alwaysCopies[h] = true
+		}
+	}
+	n := 0
+	for _, fn := range c.P.Funcs {
+		if !engine.InPackage(fn, "hashing") {
+			continue
+		}
+		var sites []ssa.Instruction
+		sites = append(sites, copyIn[fn]...)
+		for _, s := range engine.SitesIn(fn) {
+			if call, ok := s.(*ssa.Call); ok {
+				if h := call.Call.StaticCallee(); h != nil && h != fn && alwaysCopies[h] {
+					sites = append(sites, s)
+				}
+			}
+		}
+		for _, st := range sites {
+			lp := engine.LoopOf(st)
+			if lp == nil {
+				continue
+			}
+			n++
+			key := "every-input-hashed/" + c.P.FuncName(fn)
+			if !lp.IsFullRange() {
+				c.Bad(rule, key, "the input files are not visited in a full range", c.P.InstrPos(st))
+				continue
+			}
+			skip := lp.IterationCanSkip(isIn(sites), notExist)
+			c.Require(!skip, rule, key, "an input is skipped only when it does not exist", "an iteration over the input files can go on to the next file without hashing this one although it exists (a `continue` other than the not-exist case): editing such an input — e.g. one reached through a symlink — leaves the key unchanged and the stale result is served", c.P.InstrPos(st))
+		}
+	}
+	if n == 0 {
+		c.Unknown(rule, "every-input-hashed", "no loop that copies files into a hasher found in internal/hashing", "-")
+	}
 }
 
 var sortFuncs = map[string]bool{
